@@ -31,11 +31,11 @@ CHECKS = {
                      "the oracle reads the arguments docker.run received, filelist.txt as the container sees it through the mounts, returned paths/contents, exceptions and leftover temp dirs; "
                      "multi-step sequences in one interpreter check that nothing leaks from one execution into the next.",
                 note="the stand-in docker client sees the host only through the requested mounts; the real docker daemon is not involved", ref="4/C17"),
-    "C07": dict(cat="exploration", technique="history-vs-pristine-process comparison of name-normalised packages + registry snapshot monitor at quiescent points; sys.monitoring failpoints in the thorough tier",
+    "C07": dict(cat="exploration", technique="history-vs-pristine-process comparison of name-normalised packages + registry snapshot monitor at quiescent points; sys.monitoring failpoints (exceptions in the thorough tier, KeyboardInterrupt in both tiers)",
                 text="Random histories (successful/failing translations on reused and new executors declaring method types, enums, collections, functions, job scripts, inject code, extended metadata) "
                      "are followed by sensitive probe queries; each probe's rendered package or error must equal what a pristine process produces. After every step the process-global registries are "
                      "snapshotted so that a violation names the step that leaked.",
-                note="pristine = fork()ed child of an interpreter that only imported the package; probes are a fixed sensitive set (listed in evidence), histories are random", ref="4/C07"),
+                note="pristine = fork()ed child of an interpreter that only imported the package; probes are a fixed sensitive set (listed in evidence), histories are random, half of each history's probes are the ones sensitive to what it declared; a query that is transformed but never written is not a history step", ref="4/C07"),
     "C08": dict(cat="exploration", technique="metamorphic comparison of name-normalised rendered packages across meaning-preserving query variants; sample of renamed variants executed under the C01 oracle",
                 text="Every generated query is rewritten by variant generators (qastle round trip for queries qastle carries faithfully, capture-avoiding alpha-renaming with hostile names, "
                      "MetaData re-attached at every point of the main chain, Select.Select/Where.Where fusion, method<->function style); all variants must be accepted/refused alike and render the same package.",
@@ -88,10 +88,10 @@ CHECKS = {
                      "reference / pointer of scalars, objects and object pointers, deref_count 1 and 2 through operator->/operator* layers, tree_type, nested-scope enums, undeclared); each is driven "
                      "through chain templates of length 1-4 and the job's values and booked types are compared with Python and the declarations.",
                 note="signature forms are an enumerated catalogue, values are random; elements by pointer (ATLAS) and by value (CMS)", ref="4/C10"),
-    "C02": dict(cat="exploration", technique="compiler-as-oracle on emitted packages (clang, ASan+UBSan build, shadow diagnostics; static 'uninitialized' suspicions decided by valgrind memcheck on the real events), include monitor (<cmath>), runtime identifier monitor on unique_name in the translating process (declared once, scoped, basic character set), completeness audit of the output directory; valgrind sample in the thorough tier",
+    "C02": dict(cat="exploration", technique="compiler-as-oracle on emitted packages (clang, ASan+UBSan build, shadow diagnostics; static 'uninitialized' suspicions decided by valgrind memcheck on the real events), include monitor (<cmath>), runtime identifier monitor on unique_name in the translating process (declared once, scoped, basic character set), completeness audit of the output directory, template-provenance monitor (every file is rendered from this backend's template of that name), second compiler pass (g++ -fsyntax-only at the language level of the target release); valgrind sample in the thorough tier",
                 text="Every accepted translation of generated and metadata-heavy queries (equal volume on the three backends) is checked for a complete file set, executable entry script and no "
                      "surviving template directive; the unmodified C++ is compiled, linked and run against the model EDM; every identifier minted during the translation is audited in the rendered "
-                     "text: declared exactly once, before its first use, in a block enclosing all uses.",
+                     "text: declared exactly once, before its first use, in a block enclosing all uses. A fifth of the packages are written after queries of the other backends in the same process.",
                 note="compiled against the model framework shells, not the real AnalysisBase/CMSSW headers; MSan is not used (no instrumented libstdc++): valgrind stands in on a sample", ref="4/C02"),
 }
 
